@@ -25,6 +25,7 @@ Section Blind.
     f_to_be S (z_s_cap z) ++ serialize_scalars E (z_m_cap z) ++ f_to_be S (z_chal z).
 
   Definition zkpok_from_bytes (b : bytes) : outcome zkpok :=
+    if (Nat.ltb (length b) 64 || negb (Nat.eqb (Nat.modulo (length b) 32) 0))%bool then Err else
     let* s0 := slice b 0 32 in
     let* s_cap := try_opt (f_of_be S s0) in
     let* rest := slice_from b 32 in
@@ -38,6 +39,7 @@ Section Blind.
     g1_enc P (cm_C x) ++ zkpok_to_bytes (cm_proof x).
 
   Definition commitment_from_bytes (b : bytes) : outcome commitment :=
+    if Nat.ltb (length b) 48 then Err else
     let* s0 := slice b 0 48 in
     let* C := try_opt (g1_dec P s0) in
     let* rest := slice_from b 48 in
@@ -206,8 +208,9 @@ Section Blind.
     let api_id := c_api_id_blind c in
     let U := len (p_m_cap E p) in
     (* let M = disclosed_indexes.len() + disclosed_commitment_indexes.len() + U - 1 - L; *)
-    let* m1 := usub (len di + len dci + U) 1 in
-    let* M := usub m1 L in
+    let* m1 := try_opt (checked_sub (len di + len dci + U) 1) in
+    let* M := try_opt (checked_sub m1 L) in
+    if existsb (fun j => M <=? j) dci then Err else
     let* L1 := uadd L 1 in
     let* M1 := uadd M 1 in
     let* (ms, g) := prepare_parameters (Some dmsgs) (Some dcmsgs) (N.to_nat L1) (N.to_nat M1)
